@@ -38,7 +38,7 @@ def i12(cx):
         fn = F.impl_fn(im, 'poll')
         g = cx.graph(fn['key'])
         label = cx.label(fn)
-        tasks = [x for x in g.nodes if x['kind'] == 'call' and x['name'] == '<fnptr>']
+        tasks = [x for x in g.nodes if x['kind'] == 'call' and x['name'] == '<fnptr>' and not x['ctx']]
         fur_polls = {strip(x['value']) for x in g.nodes if x['kind'] == 'call' and x['name'].rsplit('::', 1)[-1] in ('poll_unpin', 'poll') and x['args']
                      and access_path(x['args'][0])[1][-1:] == ['fur']}
         # I2
